@@ -51,6 +51,25 @@ def neg_pairs(thorough, rng):
     return pairs
 
 
+def raw_offers(thorough, rng):
+    """[offers, server list]: offers = subprotocol names in three parts; wamp.2.<ser> among other versions, other protocols, junk"""
+    def o(p, v="", s=""):
+        return dict(p=p, v=v, s=s)
+    pool = [o("wamp", "2", "json"), o("wamp", "2", "msgpack"), o("wamp", "2", "cbor"), o("wamp", "2", "ubjson"), o("wamp", "1", "json"),
+            o("wamp", "3", "cbor"), o("wamp", "x", "json"), o("wamp", "0", "json"), o("mqtt"), o("wamp", "2", "nosuch"), o("wamp", "22", "json"),
+            o("wamp", "1", "msgpack"), o("wamp"), o("wamp", "2"), o("xwamp", "2", "json"), o("wamp", "-2", "json")]
+    out = []
+    for _ in range(600 if thorough else 150):
+        offers = rng.sample(pool, rng.randrange(1, 5))
+        sl = rng.sample(NAMES, rng.randrange(1, 5))
+        out.append([offers, sl])
+    for first in pool[4:]:
+        for sl in (["json"], ["cbor", "json"], NAMES):
+            out.append([[first, o("wamp", "2", "json")], sl])
+            out.append([[first], sl])
+    return out
+
+
 def half_scenarios(thorough, rng):
     out = []
     exps = range(0, 16)
@@ -83,6 +102,10 @@ def half_scenarios(thorough, rng):
                             seed=rng.randrange(10 ** 6)))
         for serid in (1, 2, 3):
             out.append(dict(type="half", role=role, ser=serid, peer_exp=rng.randrange(16), own_exp=None, openfails=True, ops=[], seed=0))
+        # the prefix 01 00 00 00 (an empty PING) with every own limit, the default included
+        for oe in (None, 24, 23, 12):
+            out.append(dict(type="half", role=role, ser=rng.choice([1, 2, 3]), peer_exp=rng.randrange(16), own_exp=oe,
+                            ops=[["inject", "ping0"], ["recv", 50, "hdr"], ["send", 50]], seed=rng.randrange(10 ** 6)))
         for kind in KINDS + ["ping0"]:
             for rep in range(3 if thorough else 2):
                 pre = [rng.choice([["send", rng.randrange(30, 400)], ["recv", rng.randrange(30, 400), "hdr"]]) for _ in range(rng.randrange(0, 4))]
@@ -142,6 +165,7 @@ def run(res):
     res.add_model("WampTransport", r)
     hs = hs_cases(thorough, rng)
     neg = neg_pairs(thorough, rng)
+    raw = raw_offers(thorough, rng)
     half = half_scenarios(thorough, rng) + stream_scenarios(thorough, rng)
     pairs = pair_scenarios(thorough, rng, 1500 if thorough else 300)
     jobs = []
@@ -149,7 +173,7 @@ def run(res):
         nsh = 4 if thorough else 2
         for k in range(nsh):
             jobs.append(("wtrans_drv", [], common.driver_env(fw=fwn, seed=res.seed), dict(mode="rs_hs", cases=hs[k::nsh])))
-        jobs.append(("wtrans_drv", [], common.driver_env(fw=fwn, seed=res.seed), dict(mode="ws_neg", pairs=neg)))
+        jobs.append(("wtrans_drv", [], common.driver_env(fw=fwn, seed=res.seed), dict(mode="ws_neg", pairs=neg, raw=raw)))
         jobs.append(("wtrans_drv", [], common.driver_env(fw=fwn, seed=res.seed), dict(mode="link", scenarios=half)))
         jobs.append(("wtrans_drv", [], common.driver_env(fw=fwn, seed=res.seed), dict(mode="link", scenarios=pairs)))
     outs = common.run_drivers_parallel(jobs)
@@ -166,6 +190,8 @@ def run(res):
                     res.distinct_key([o["fw"], e["role"], e["o"], e["seg"]])
                 elif e["ev"] == "ws_neg":
                     res.distinct_key([o["fw"], e["cl"], e["sl"]])
+                elif e["ev"] == "ws_neg_raw":
+                    res.distinct_key([o["fw"], str(e["offers"]), e["sl"]])
                 elif e["ev"] in ("link_send", "link_recv", "link_inject", "pair_inject"):
                     res.distinct_key([o["fw"], e["ev"], e.get("n"), e.get("kind"), e.get("arg"), e.get("to"), e.get("tkind"), e.get("fbd")])
     v = tlc.validate_traces("WampTransportTrace", "WampTransportTrace.cfg", traces, shards=8)
